@@ -812,6 +812,9 @@ var stdExternals = map[string]externalFn{
 		case int:
 			return strconv.Itoa(x)
 		case *Term:
+			if fr.i.p != nil && fr.i.p.c != nil && fr.i.p.c.H.EnumInts {
+				return strconv.Itoa(int(fr.toInt(x, types.Typ[types.Int])))
+			}
 			return opaqueString(fr)
 		}
 		panic("Itoa")
